@@ -269,3 +269,43 @@ Example C06_nonvacuous_flip_error :
                (Simple false (Single exR)) (mkP [4; 64; 64; 64; 64; 64] 350 2) 1024 = (Some e, s')
     /\ pph s' = 1%nat /\ pT s' = 350.
 Proof. eexists. eexists. split; [vm_compute; reflexivity|]. split; reflexivity. Qed.
+
+(* ---------- the H memo shared by a stream and its proxies ---------- *)
+(* [hspec]: the mixture model's specific enthalpy, a function of the VALUES of composition and T.
+   For every history of reads (H or any other memoised property) and changes of T, flows and phase
+   through whichever handle: the stream ends in the state the memo-free run ends in, every H that
+   was read is the enthalpy of the state it was read in, and the memo stays consistent. *)
+Theorem C06_memo_transparent : forall (hspec : nat -> vec -> Q -> Q),
+  (forall ph z z' T T', T == T' -> veqb z z' = true -> hspec ph z T == hspec ph z' T') ->
+  forall ops s c, cinv hspec c ->
+  fst (fst (srun hspec (s, c) ops)) = fst (srun_ref hspec s ops) /\
+  Forall2 Qeq (snd (srun hspec (s, c) ops)) (snd (srun_ref hspec s ops)) /\
+  cinv hspec (snd (fst (srun hspec (s, c) ops))).
+Proof. exact srun_transparent. Qed.
+Print Assumptions C06_memo_transparent.
+
+(* adiabatic_reaction through any handle, after any such history (consistent memo), for ANY reaction
+   step [callf] — same package, another package (V.C05.Model.call_other), any object — with the
+   H setter's phase fallback: a normal return closes the balance, evaluated memo-free *)
+Theorem C06_adiabatic_cached : forall (hspec : nat -> vec -> Q -> Q),
+  (forall ph z z' T T', T == T' -> veqb z z' = true -> hspec ph z T == hspec ph z' T') ->
+  forall (solveP : nat -> vec -> Q -> res Q) (hf : vec),
+  (forall ph m h t, solveP ph m h = Ok t -> HfunC hspec ph m t == h) ->
+  forall is_stream callf s c Qin s' c', cinv hspec c ->
+  adiabatic_cached hspec solveP hf is_stream callf (s, c) Qin = (None, (s', c')) ->
+  HfunC hspec (pph s') (pmol s') (pT s') + Hf_of hf (pmol s') ==
+    HfunC hspec (pph s) (pmol s) (pT s) + Hf_of hf (pmol s) + Qin
+  /\ callf (pmol s) = (None, pmol s') /\ cinv hspec c'.
+Proof. exact adiabatic_cached_lemma. Qed.
+Print Assumptions C06_adiabatic_cached.
+
+Example C06_memo_initial : forall hspec, cinv hspec cache0.
+Proof. exact cinv_cache0. Qed.
+
+(* non-vacuity: state A read, state B read, back to A, read again: the values are those of A, B, A *)
+Example C06_nonvacuous_memo :
+  snd (srun (stub_hspec exCn) (mkP [4; 64; 64; 64; 64; 64] 350 2, cache0)
+            [SReadH; SSetT 400; SReadH; SSetT 350; SReadOther; SReadH])
+  = snd (srun_ref (stub_hspec exCn) (mkP [4; 64; 64; 64; 64; 64] 350 2)
+            [SReadH; SSetT 400; SReadH; SSetT 350; SReadOther; SReadH]).
+Proof. vm_compute. reflexivity. Qed.
